@@ -178,15 +178,18 @@ Readable == kind = "stream" \/ closed      \* a file has no footer before finish
 (* entry.  `clean` excludes the writes made after a failed write had advanced the *)
 (* tracker without emitting (known finding C04-file-delta-tracker-ahead; with     *)
 (* ContinueAfterError = FALSE in the model no such write exists).                 *)
-RoundTrips(i) ==
-  LET snaps == ReaderSnaps(kind, nd, msgs)
-      j == BatchNo(i) IN
+RoundTripsWith(snaps, i) ==
+  LET j == BatchNo(i) IN
   /\ j <= Len(snaps) /\ ~snaps[j].bad
   /\ \A d \in 1..nd :
        LET v == given[i].dicts[d].vals IN Resolve(AllKeys(v), snaps[j].d[d]) = v \o <<"~null">>
+RoundTrips(i) == RoundTripsWith(ReaderSnaps(kind, nd, msgs), i)
 
-R1_RoundTrip == Readable => \A i \in OkWrites : given[i].clean => RoundTrips(i)
-R1_Unconditional == Readable => \A i \in OkWrites : RoundTrips(i)
+R1_RoundTrip ==
+  Readable => LET snaps == ReaderSnaps(kind, nd, msgs) IN
+              \A i \in OkWrites : given[i].clean => RoundTripsWith(snaps, i)
+R1_Unconditional ==
+  Readable => LET snaps == ReaderSnaps(kind, nd, msgs) IN \A i \in OkWrites : RoundTripsWith(snaps, i)
 
 (* the stream readers hold exactly the dictionary of the batch, not only an       *)
 (* extension of it                                                                *)
@@ -216,8 +219,9 @@ I_Order ==
 (* the tracker can only run ahead of the readers after a refused write, and never  *)
 (* for the stream writers (which refuse nothing)                                   *)
 I_Sync ==
-  /\ kind = "stream" => Stale = {}
-  /\ Stale # {} => \E i \in DOMAIN given : ~given[i].ok
+  /\ LET st == Stale IN
+     /\ kind = "stream" => st = {}
+     /\ st # {} => \E i \in DOMAIN given : ~given[i].ok
   /\ (\A i \in DOMAIN given : given[i].ok) => \A i \in DOMAIN given : given[i].clean
 
 (* only the file writer refuses, and only a batch that is not the first            *)
